@@ -857,17 +857,16 @@ def gen_quoting() -> str:
     if num_src is None:
         MISSING.append("_ANSI_C_NUMERIC")
         num_src = ""
-    # the words left to _strip_quotes, and the characters a backslash escapes inside double quotes
+    # the active expansions that leave a word to _strip_quotes (outside quotes; inside double quotes), and the characters a
+    # backslash escapes inside double quotes
     markers, dq = [], None
     f = find_func(an, "_remove_quotes")
     if f is not None:
-        for st in f.body:
-            if isinstance(st, ast.If) and isinstance(st.test, ast.BoolOp) and isinstance(st.test.op, ast.Or):
-                for v in st.test.values:
-                    if isinstance(v, ast.Compare) and isinstance(v.ops[0], ast.In) and isinstance(v.left, ast.Constant) and ast.unparse(v.comparators[0]) == "value":
-                        markers.append(v.left.value)
-                break
         for n in ast.walk(f):
+            if isinstance(n, ast.If) and len(n.body) == 1 and isinstance(n.body[0], ast.Return) and ast.unparse(n.body[0].value) == "_strip_quotes(value)":
+                t = ast.unparse(n.test)
+                if "`" in t:
+                    markers.append(t)
             if isinstance(n, ast.Compare) and isinstance(n.ops[0], ast.In) and isinstance(n.comparators[0], ast.Constant) and isinstance(n.comparators[0].value, str) and ast.unparse(n.left) == "value[i + 1]":
                 dq = n.comparators[0].value
     if not markers or dq is None:
